@@ -45,7 +45,7 @@ type Auth struct {
 func (a *Auth) ParseAuthorization(authStr string) (err error) {
 	switch {
 	case strings.HasPrefix(authStr, "Basic "):
-		a.Typ = AuthTypeDigest
+		a.Typ = AuthTypeBasic
 		authBase64Str := strings.TrimPrefix(authStr, "Basic ")
 
 		authInfo, err := base64.StdEncoding.DecodeString(authBase64Str)
